@@ -38,7 +38,7 @@ macro_rules! trees {
                 let mut path = Vec::new();
                 for kind in ["RangeIter", "RangeIterRev", "RangeInclusiveIter", "RangeInclusiveIterRev"] {
                     let d = || (format!("{}|tree:{}|{:?}|{:?}", $tyname, kind, s, e), format!("{}<{}> over ({:?}, {:?})", kind, $tyname, s, e));
-                    let mut c = TreeCtx { rep: $rep, engine: "range-tree", describe: &d, only: None, max_depth: $maxlen + 3, nodes: 0, leaves: 0 };
+                    let mut c = TreeCtx { rep: $rep, engine: "range-tree", describe: &d, only: None, max_depth: $maxlen + 3, nodes: 0, leaves: 0, depth_is_bound: false };
                     match kind {
                         "RangeIter" => explore(&mut c, into_iter!(s..e), RefIt { it: s..e, reversed: false }, &id, &id, &no_ext, &no_ext, &mut path),
                         "RangeIterRev" => explore(&mut c, into_iter!(s..e).rev(), RefIt { it: s..e, reversed: true }, &id, &id, &no_ext, &no_ext, &mut path),
